@@ -192,6 +192,7 @@ class TreeLayer(drive.ProcessLayer):
         # a real SIGINT for the main thread of this (the harness's own) process while it waits in
         # Thread.join: `_thread.interrupt_main()` does not wake a blocking lock acquire
         self.sigint_main = sigint_main
+        self.in_join = threading.Event()   # set by the harness when the main thread has entered the join
 
     def popen(self, args, shell=False, cwd=None, stdin=None, stdout=None, stderr=None, env=None, **kw):
         if isinstance(args, str) and args.startswith('pgrep -P'):
@@ -204,6 +205,9 @@ class TreeLayer(drive.ProcessLayer):
         orig = proc.communicate
 
         def delayed():
+            if self.sigint_main:
+                # never signal before the main thread is inside run()'s try block (heavy machine load)
+                self.in_join.wait(30)
             time.sleep(0.05)
             if self.sigint_main:
                 signal.pthread_kill(threading.main_thread().ident, signal.SIGINT)
@@ -238,6 +242,14 @@ HARNESS_SH = r'''#!/bin/sh
 DIR="$1"; B="$2"
 read MODE D F < "$DIR/$B.plan"
 LOG="$DIR/$B.log"
+if [ "$MODE" = "hang2" ]; then
+  # hang in the second invocation only (the signal then arrives at the second process start)
+  N=0
+  [ -f "$DIR/$B.count" ] && read N < "$DIR/$B.count"
+  N=$((N+1))
+  echo "$N" > "$DIR/$B.count"
+  if [ "$N" -lt 2 ]; then MODE=normal; else MODE=hang; fi
+fi
 echo "start $$ $PPID" >> "$LOG"
 echo "$B: iterations=1 runtime: 111ms"
 if [ "$MODE" = "hang" ]; then
@@ -360,7 +372,7 @@ def wait_until(pred, timeout, step=0.02):
     return pred()
 
 
-def write_real_scenario(wd, benchmarks, limit, ignore_timeouts):
+def write_real_scenario(wd, benchmarks, limit, ignore_timeouts, invocations=1):
     """benchmarks: list of (name, mode, depth, fanout)"""
     with open(os.path.join(wd, 'node.sh'), 'w') as f:
         f.write(NODE_SH)
@@ -372,7 +384,7 @@ def write_real_scenario(wd, benchmarks, limit, ignore_timeouts):
     suite = {'gauge_adapter': 'RebenchLog', 'command': '%s/harness.sh %s %%(benchmark)s' % (wd, wd),
              'benchmarks': [b for (b, _m, _d, _f) in benchmarks], 'max_invocation_time': limit,
              'ignore_timeouts': bool(ignore_timeouts)}
-    cfg = {'default_experiment': 'T', 'default_data_file': 't.data', 'runs': {'invocations': 1},
+    cfg = {'default_experiment': 'T', 'default_data_file': 't.data', 'runs': {'invocations': invocations},
            'benchmark_suites': {'S': suite}, 'executors': {'E': {'path': '/bin', 'executable': 'sh'}},
            'experiments': {'T': {'suites': ['S'], 'executions': ['E']}}}
     return drive.write_config(wd, cfg)
